@@ -1,6 +1,6 @@
 ----------------------------- MODULE Export_C04 -----------------------------
 EXTENDS U_C04, Json, IOUtils
-ASSUME JsonSerialize(IOEnv.JASM_OUT, [i |-> Universe, o |-> UniverseO, f |-> UniverseF])
+ASSUME JsonSerialize(IOEnv.JASM_OUT, [i |-> Universe, o |-> UniverseO, f |-> UniverseF, n |-> UniverseN])
 VARIABLE x
 Init == x = 0
 Next == x' = x
